@@ -32,13 +32,14 @@ void bodies_setup_shared() {
   sched_log_allocs(0);
 }
 
-int bodies_count() { return 13; }
+int bodies_count() { return 14; }
 const char* bodies_name(int b) {
   static const char* n[] = {"B1 Clipper64+shared container (Intersection->paths)", "B2 Clipper64+shared container (Xor->tree)", "B3 ClipperD", "B4 ClipperOffset round/joined", "B5 RectClip+RectClipLines", "B6 MinkowskiSum", "B7 utilities",
                            "B8 ClipperOffset delta callback, round joins", "B9 Clipper64->PolyTree, island inscribed in its hole",
                            "B10 PathsD free functions (RectClip, InflatePaths, Union, TrimCollinear, MinkowskiSum)", "B11 PathsD free functions called with an invalid precision / out-of-range coordinates (error path)",
                            "B12 ClipperD->PolyTreeD (precision 2 / 5), nested children",
-                           "B13 ClipperOffset on one-point paths (circles / squares), different delta and arc tolerance per variant"};
+                           "B13 ClipperOffset on one-point paths (circles / squares), different delta and arc tolerance per variant",
+                           "B14 MinkowskiDiff (Path64 and PathD) and open MinkowskiSum, a different pattern per variant"};
   return n[b];
 }
 
@@ -100,5 +101,11 @@ void bodies_run(int body, int variant, std::string& out) {
         CL::Paths64 s3; co.Execute(variant ? 9.0 : 5.0, s3); ser(out, s3);
       }
       break; }
+    case 13: { // MinkowskiDiff subtracts (reflects) the pattern: both variants use patterns of the same length but different points
+      CL::Path64 pat = variant ? mk({-9, -2, 6, -5, 8, 7}) : mk({-3, -2, 4, -1, 1, 5});
+      CL::Path64 path = mk({10 + d, 10, 60 + d, 12, 55 + d, 62});
+      ser(out, CL::MinkowskiDiff(pat, path, true));
+      CL::PathD patD, pathD; for (auto& q : pat) patD.emplace_back(q.x * 0.25, q.y * 0.25); for (auto& q : path) pathD.emplace_back(q.x * 0.5, q.y * 0.5);
+      serD(out, CL::MinkowskiDiff(patD, pathD, false, variant ? 3 : 2)); break; }
   }
 }
